@@ -1,7 +1,7 @@
 // idbdrive: execute a script of query-library commands in ONE process (= one history of the
 // process-wide InterrogateDatabase singleton) and log every call and result, one line each.
 //
-//   idbdrive [--trace] SCRIPT        (SCRIPT "-" = stdin)
+//   idbdrive [--trace] [--nocatch] SCRIPT        (SCRIPT "-" = stdin)
 //
 // Script: one command per line, blank-separated tokens.  Strings are hex encoded with an 'x' prefix
 // ("x616263" = "abc", "x" = "", "-" = NULL pointer).
@@ -62,6 +62,7 @@ static const Fn TABLE[] = {
 static const int NFN = sizeof(TABLE) / sizeof(TABLE[0]);
 
 static bool g_trace = false;
+static bool g_nocatch = false;   // --nocatch: let exceptions escape (stack trace of the throw in the abort report)
 
 struct Val {
   char kind = 'v';   // i b s p v
@@ -243,41 +244,49 @@ static InterrogateModuleDef *new_def() {
 // One probe = a fresh database object (the old one is leaked), one load, one digest.  Runs in-process so that
 // thousands of probes are cheap; a "B <label>" line is flushed first so that a hard crash is attributable, and
 // an exception escaping the C interface is caught and reported (for a C caller that is a crash).
+static void probe_body(const std::string &label, const char *file, int ident, int hi, int pmax) {
+  if (file) {
+    InterrogateModuleDef *def = new_def();
+    def->file_identifier = ident;
+    def->database_filename = file;
+    interrogate_request_module(def);
+  }
+  std::string d = dump_string();
+  // the error flag is reported separately; keep it out of the state digest
+  for (const char *k : { "\"error_flag\":true", "\"error_flag_after\":true" }) {
+    size_t p = d.find(k);
+    if (p != std::string::npos) d.replace(p + strlen(k) - 4, 4, "false");
+  }
+  std::ostringstream sw;
+  sweep(sw, -2, hi, pmax, "", false, 0, false, 0);
+  // the T lines carry call counts only; keep the S lines
+  std::string sws = sw.str(), only_s;
+  std::istringstream ls(sws);
+  std::string line;
+  while (std::getline(ls, line))
+    if (!line.empty() && line[0] == 'S' && line.compare(0, 25, "S interrogate_error_flag ") != 0) { only_s += line; only_s += '\n'; }
+  bool flag = interrogate_error_flag();
+  char hb[32]; snprintf(hb, sizeof hb, "%016llx", fnv(d + "\n--\n" + only_s));
+  std::cout << "P " << label << " " << (flag ? 1 : 0) << " " << hb << " " << interrogate_number_of_types() << " "
+            << interrogate_number_of_functions() << std::endl;
+}
+
 static void probe(const std::string &label, const char *file, int ident, int hi, int pmax) {
   InterrogateDatabase::_global_ptr = nullptr;        // harness is compiled with -fno-access-control
   std::cout << "B " << label << std::endl;
   alarm(20);
-  try {
-    if (file) {
-      InterrogateModuleDef *def = new_def();
-      def->file_identifier = ident;
-      def->database_filename = file;
-      interrogate_request_module(def);
+  if (g_nocatch) {
+    probe_body(label, file, ident, hi, pmax);
+  } else {
+    try {
+      probe_body(label, file, ident, hi, pmax);
+    } catch (const std::exception &e) {
+      std::cout.clear();
+      std::cout << "P " << label << " THREW " << typeid(e).name() << std::endl;
+    } catch (...) {
+      std::cout.clear();
+      std::cout << "P " << label << " THREW unknown" << std::endl;
     }
-    std::string d = dump_string();
-    // the error flag is reported separately; keep it out of the state digest
-    for (const char *k : { "\"error_flag\":true", "\"error_flag_after\":true" }) {
-      size_t p = d.find(k);
-      if (p != std::string::npos) d.replace(p + strlen(k) - 4, 4, "false");
-    }
-    std::ostringstream sw;
-    sweep(sw, -2, hi, pmax, "", false, 0, false, 0);
-    // the T lines carry call counts only; keep the S lines
-    std::string sws = sw.str(), only_s;
-    std::istringstream ls(sws);
-    std::string line;
-    while (std::getline(ls, line))
-      if (!line.empty() && line[0] == 'S' && line.compare(0, 25, "S interrogate_error_flag ") != 0) { only_s += line; only_s += '\n'; }
-    bool flag = interrogate_error_flag();
-    char hb[32]; snprintf(hb, sizeof hb, "%016llx", fnv(d + "\n--\n" + only_s));
-    std::cout << "P " << label << " " << (flag ? 1 : 0) << " " << hb << " " << interrogate_number_of_types() << " "
-              << interrogate_number_of_functions() << std::endl;
-  } catch (const std::exception &e) {
-    std::cout.clear();
-    std::cout << "P " << label << " THREW " << typeid(e).name() << std::endl;
-  } catch (...) {
-    std::cout.clear();
-    std::cout << "P " << label << " THREW unknown" << std::endl;
   }
   alarm(0);
 }
@@ -286,6 +295,7 @@ int main(int argc, char **argv) {
   const char *script = nullptr;
   for (int i = 1; i < argc; ++i) {
     if (!strcmp(argv[i], "--trace")) g_trace = true;
+    else if (!strcmp(argv[i], "--nocatch")) g_nocatch = true;
     else script = argv[i];
   }
   if (!script) { std::cerr << "usage: idbdrive [--trace] SCRIPT\n"; return 3; }
